@@ -14,12 +14,16 @@ Definition cks (l : list N) : Z :=
 Definition Tc (l : list N) : T :=
   if (length l <=? 64)%nat then Tl [Tn 0; Tb l] else Tl [Tn 1; Tnat (length l); Tn (cks l)].
 
-Definition obs_state (s : pstate) : T :=
+(* wbuf = false: the harness could not read the carried-over buffer of the real parser; the buffer fields are
+   then dropped on both sides (the harness reports an empty buffer, the encoder too) *)
+Definition bufv (wbuf : bool) (buf : list N) : list N := if wbuf then buf else [].
+
+Definition obs_state (wbuf : bool) (s : pstate) : T :=
   match s with
-  | PFirst buf => Tl [Tn 0; Tc buf]
-  | PHead fl _ buf => Tl [Tn 1; Tc fl; Tc buf]
+  | PFirst buf => Tl [Tn 0; Tc (bufv wbuf buf)]
+  | PHead fl _ buf => Tl [Tn 1; Tc fl; Tc (bufv wbuf buf)]
   | PBody fl blk _ _ body => Tl [Tn 2; Tc fl; Tc blk; Tc body]
-  | PChunk fl blk body buf => Tl [Tn 3; Tc fl; Tc blk; Tc body; Tc buf]
+  | PChunk fl blk body buf => Tl [Tn 3; Tc fl; Tc blk; Tc body; Tc (bufv wbuf buf)]
   | PDone fl blk body => Tl [Tn 4; Tc fl; Tc blk; Tc body]
   | PErr e => Tl [Tn 5; TN e]
   | PCrash => Tl [Tn 6]
@@ -33,12 +37,12 @@ Definition tag (s : pstate) : Z :=
   end.
 
 (* tag, length of the carried-over buffer, length of the body so far *)
-Definition obs_short (s : pstate) : T :=
+Definition obs_short (wbuf : bool) (s : pstate) : T :=
   match s with
-  | PFirst buf => Tl [Tn 0; Tnat (length buf); Tn 0]
-  | PHead _ _ buf => Tl [Tn 1; Tnat (length buf); Tn 0]
+  | PFirst buf => Tl [Tn 0; Tnat (length (bufv wbuf buf)); Tn 0]
+  | PHead _ _ buf => Tl [Tn 1; Tnat (length (bufv wbuf buf)); Tn 0]
   | PBody _ _ _ _ body => Tl [Tn 2; Tn 0; Tnat (length body)]
-  | PChunk _ _ body buf => Tl [Tn 3; Tnat (length buf); Tnat (length body)]
+  | PChunk _ _ body buf => Tl [Tn 3; Tnat (length (bufv wbuf buf)); Tnat (length body)]
   | PDone _ _ body => Tl [Tn 4; Tn 0; Tnat (length body)]
   | PErr e => Tl [Tn 5; TN e; Tn 0]
   | PCrash => Tl [Tn 6; Tn 0; Tn 0]
@@ -53,13 +57,13 @@ Definition obs_event (e : event) : T :=
   end.
 
 (* keep the reads after which the phase changed or an event was fired (with their index) *)
-Fixpoint compress (i : nat) (prev : Z) (tr : list (pstate * list event)) : list T :=
+Fixpoint compress (wbuf : bool) (i : nat) (prev : Z) (tr : list (pstate * list event)) : list T :=
   match tr with
   | [] => []
   | (s, evs) :: r =>
       let t := tag s in
-      if (t =? prev)%Z && (match evs with [] => true | _ => false end) then compress (S i) t r
-      else Tl [Tnat i; obs_short s; Tlist obs_event evs] :: compress (S i) t r
+      if (t =? prev)%Z && (match evs with [] => true | _ => false end) then compress wbuf (S i) t r
+      else Tl [Tnat i; obs_short wbuf s; Tlist obs_event evs] :: compress wbuf (S i) t r
   end.
 
 Definition slice (off len : nat) (l : list N) : list N := firstn len (skipn off l).
@@ -76,6 +80,7 @@ Definition no_emit (s : pstate) : option (list event) := None.
 Section Run.
 Variable mode : nat.                       (* 0 raw parser, 1 server HTTP, 2 client HTTP *)
 Variable kind_resp : bool.
+Variable wbuf : bool.
 Variable msgb : list byte.                  (* byte constructors elaborate much faster than N numerals *)
 Variable cutr : list (N * N).              (* cut positions: every position in each range [a, b] (binary numerals: cheap) *)
 Variable sfl : list (N * N * option bool).                           (* first-line table, keys as slices *)
@@ -98,5 +103,5 @@ Fixpoint conn_trace (s : pstate) (reads : list (list N)) : list (pstate * list e
 
 Definition obs_run : T :=
   let tr := conn_trace (PFirst []) (cut_at 0 cuts msg) in
-  Tpair (Tl (compress 0 0%Z tr)) (obs_state (fst (last tr (PFirst [], [])))).
+  Tpair (Tl (compress wbuf 0 0%Z tr)) (obs_state wbuf (fst (last tr (PFirst [], [])))).
 End Run.
